@@ -159,6 +159,7 @@ def checkStress (lines : List String) : CaseResult := Id.run do
             else if what == "fallback" then "fallback_duplicate"
             else if what == "fbcreate" then "fallback_same_prefix"
             else if what == "manygens" then "generators_share_ids"
+            else if what == "snapconc" then "restored_generator_repeats_ids"
             else "stress_duplicate"
           r := { r with specs := s!"{sig}: {dups} duplicates among {total} ids ({gor} goroutines x {each} x {gens} generators), first {first}" :: r.specs }
         r := { r with nontrivial := total > 1 }
@@ -266,6 +267,7 @@ def check (params : List String) (lines : List String) : CaseResult :=
   | "fb_conc" :: _ => checkStress lines
   | "fb_create" :: _ => checkStress lines
   | "many_gens" :: _ => checkStress lines
+  | "snap_conc" :: _ => checkStress lines
   | "fb_single" :: _ => checkFb lines
   | "engine" :: builder :: _ => checkEngine builder lines
   | _ => { bad := ["c20 params"] }
